@@ -71,8 +71,12 @@ def generate(seed, tier):
                     extra.append(['setitem', rng.choice(NAMEPOOL), [rand_value(rng) for _ in range(rng.randint(0, 5))]])
                 elif r2 < 0.8:
                     extra.append(['del', rng.choice(names)])
-                elif r2 < 0.9:
+                elif r2 < 0.86:
                     extra.append(['update', rng.choice(NAMEPOOL), [rand_value(rng) for _ in range(rng.randint(1, 4))]])
+                elif r2 < 0.92:
+                    extra.append(['rename', rng.choice(names), rng.choice(NAMEPOOL)])
+                elif r2 < 0.97:
+                    extra.append(['names_mutate', rng.choice(['sort', 'reverse', 'clear', 'append'])])
                 else:
                     extra.append(['append', rng.choice(NAMEPOOL), rand_value(rng)])
             for e in extra:
@@ -186,7 +190,7 @@ def execute(case):
         h = TimeSeriesHolder(case.get('holder_name', 'k'))
         ref = {}
         for step in case['appends']:
-            if step[0] not in ('append', 'setitem', 'update', 'del', 'render'):   # old replay format [name, value]
+            if step[0] not in ('append', 'setitem', 'update', 'del', 'render', 'rename', 'names_mutate'):   # old replay format [name, value]
                 step = ['append', step[0], step[1]]
             kind = step[0]
             if kind == 'append':
@@ -203,6 +207,23 @@ def execute(case):
                 if step[1] in ref:
                     del h[step[1]]
                     del ref[step[1]]
+            elif kind == 'rename':
+                if step[1] in ref and step[2] not in ref:
+                    h[step[2]] = h.pop(step[1])
+                    ref[step[2]] = ref.pop(step[1])
+                    stats['probes']['series_renamed'] = 1
+            elif kind == 'names_mutate':
+                # the caller plays with the list of names it was handed
+                lst = h.GetSeriesList()
+                if step[1] == 'sort':
+                    lst.sort()
+                elif step[1] == 'reverse':
+                    lst.reverse()
+                elif step[1] == 'clear':
+                    del lst[:]
+                else:
+                    lst.append('bogus')
+                stats['probes']['returned_name_list_mutated'] = 1
             elif kind == 'render':
                 try:
                     mid = h.GenerateCSVtext(fmt)
